@@ -300,6 +300,16 @@ def part_errflow(pid):
     return run
 
 
+def part_fold(pid):
+    def run(ctx):
+        from . import rules_fold
+        n = rules_fold.check(ctx, module("release", "ssa"), "release", [pid])
+        ctx.explanation += ("R-FOLD: the edge length / cell area is accumulated as one term per consecutive pair of boundary vertices (pair sets derived from the loop "
+                            "counter, bound and subscripts for numVerts = 2..10; accumulator starts at 0.0, every term added once, result stored). ")
+        ctx.floor("R-FOLD", "fold instances for %s" % pid, n, 1)
+    return run
+
+
 def part_fmt(ctx):
     from . import rules_fmt
     n = rules_fmt.check(ctx, module("release", "ssa"), "release")
@@ -324,9 +334,9 @@ PARTS = {
     "C04": [part_guards("C04"), part_errflow("C04"), part_bitprov("indexops", "C04"), part_drain(["cellToChildren"]), part_cform("C04"), part_tables(["T7"], {"T7": ["isBaseCellPentagonArr"]}), part_wit("C04")],
     "C05": [part_guards("C05"), part_errflow("C05"), part_bitprov("indexops", "C05"), part_tables(["T1", "T2", "T3", "T10", "T11", "T7", "T19"], {"T7": ["baseCellNeighbors", "baseCellNeighbor60CCWRots"]}), part_cform("C05"), part_hashmod(["_gridDiskDistancesInternal"], 1), part_wit("C05")],
     "C06": [part_guards("C06"), part_errflow("C06"), part_bitprov("indexops", "C06"), part_drain(["uncompactCells"]), part_bw("C06"), part_hashmod(["compactCells"], 2)],
-    "C08": [part_tables(["T5", "T9", "T13"]), part_cform("C08"), part_wit("C08")],
+    "C08": [part_fold("C08"), part_tables(["T5", "T9", "T13"]), part_cform("C08"), part_wit("C08")],
     "C09": [part_guards("C09"), part_errflow("C09"), part_bitprov("indexops", "C09"), part_tables(["T1", "T2", "T3", "T10", "T14"]), part_ovf, part_wit("C09")],
-    "C10": [part_guards("C10"), part_errflow("C10"), part_bitprov("indexops", "C10"), part_tables(["T8", "T12"]), part_cform("C10"), part_wit("C10")],
+    "C10": [part_guards("C10"), part_errflow("C10"), part_bitprov("indexops", "C10"), part_tables(["T8", "T12"]), part_cform("C10"), part_fold("C10"), part_wit("C10")],
     "C11": [part_guards("C11"), part_errflow("C11"), part_tables(["T8", "T12", "T7"], {"T7": ["pentagonDirectionFaces"]}), part_wit("C11")],
     "C12": [part_guards("C12"), part_ret, part_errdisc, part_errflow("C12"), part_ovf, part_idx, part_bw(None), part_hashmod(None, 5), part_cform("C12"), part_wit("C12")],
     "C13": [part_guards("C13"), part_errflow("C13"), part_bitprov("indexops", "C13"), part_cform("C13"), part_wit("C13")], "C14": [part_guards("C14"), part_errflow("C14"), part_bw("C14"), part_cform("C14")], "C15": [part_guards("C15"), part_errflow("C15"), part_bw("C15"), part_sib, part_tables(["T17", "T18"]), part_wit("C15")],
